@@ -16,6 +16,7 @@ import (
 	"sort"
 	"strconv"
 	"strings"
+	"sync/atomic"
 	"time"
 
 	"github.com/internetarchive/Zeno/internal/pkg/config"
@@ -24,10 +25,22 @@ import (
 )
 
 const (
-	rxLong  = 3 * time.Second        // watchdog where the implementation's own state says "can proceed"
-	rxShort = 2 * time.Millisecond   // grace where the implementation's own state says "must block"
-	rxQuick = 200 * time.Microsecond // first look
+	rxLongFull = 3 * time.Second        // watchdog where the implementation's own state says "can proceed"
+	rxShort    = 2 * time.Millisecond   // grace where the implementation's own state says "must block"
+	rxQuick    = 200 * time.Microsecond // first look
 )
+
+// rxExpired counts watchdogs that ran out.  On a correct tree it stays 0.  Once a handful have expired the
+// verdict of the run is settled and the remaining cases use a short watchdog, so that a broken tree
+// does not cost three seconds per case.
+var rxExpired atomic.Int32
+
+func rxLongNow() time.Duration {
+	if rxExpired.Load() >= 6 {
+		return 200 * time.Millisecond
+	}
+	return rxLongFull
+}
 
 var rxDevNull *os.File
 var rxStdout *os.File
@@ -302,7 +315,7 @@ type rxSeq struct {
 }
 
 func (h *rxSeq) settle() {
-	deadline := time.Now().Add(rxLong)
+	deadline := time.Now().Add(rxLongNow())
 	for spins := 0; ; spins++ {
 		if !reactor.VerifAlive() {
 			return
@@ -321,6 +334,7 @@ func (h *rxSeq) settle() {
 		}
 		if time.Now().After(deadline) {
 			h.unsettled = true
+			rxExpired.Add(1)
 			return
 		}
 		if spins < 50 {
@@ -385,7 +399,7 @@ func (h *rxSeq) pollPending(what byte) string {
 	h.settle()
 	if h.pend != nil {
 		if h.pendMayWake(what) {
-			h.pendDone(rxLong)
+			h.pendDone(rxLongNow())
 			if h.pend != nil && h.pend.stage == 1 && what == 'F' {
 				// it got its token and is now blocked sending to a full input channel
 				h.pend.stage = 2
@@ -451,7 +465,8 @@ func (h *rxSeq) take(block bool) int {
 	if block {
 		select {
 		case it = <-h.out:
-		case <-time.After(rxLong):
+		case <-time.After(rxLongNow()):
+			rxExpired.Add(1)
 		}
 	} else {
 		select {
@@ -571,13 +586,13 @@ func execReactorSeq(in string) Result {
 			go func() { reactor.Stop(); close(done) }()
 			select {
 			case <-done:
-			case <-time.After(2 * rxLong):
+			case <-time.After(2 * rxLongNow()):
 				tags["stop:hung"] = true
 			}
 			stopped, interesting = true, true
 			h.closed = true
 			tags["has:stop"] = true
-			h.pendDone(rxLong)
+			h.pendDone(rxLongNow())
 			p := h.pendRes
 			h.pendRes = ""
 			steps = append(steps, fmt.Sprintf("(SStop, %s)", h.obs("", p, -1)))
@@ -615,7 +630,7 @@ func execReactorSeq(in string) Result {
 				}
 			}
 		}
-		wait := rxLong
+		wait := rxLongNow()
 		if mayBlock {
 			wait = rxShort
 		}
@@ -637,6 +652,7 @@ func execReactorSeq(in string) Result {
 			h.pend = &rxPending{kind: kind, id: id, ch: ch, stage: stage}
 			h.settle()
 			if !mayBlock { // the implementation's own state did not announce this: one watchdog per case is enough
+				rxExpired.Add(1)
 				tags["trunc:unexpected-block"] = true
 				steps = append(steps, fmt.Sprintf("(SCall (%s %d), %s)", opTerm, id, h.obs("", "", -1)))
 				break
@@ -691,13 +707,13 @@ func execReactorSeq(in string) Result {
 		go func() { reactor.Stop(); close(done) }()
 		select {
 		case <-done:
-		case <-time.After(2 * rxLong):
+		case <-time.After(2 * rxLongNow()):
 		}
 	}
 	if h.pend != nil {
 		select {
 		case <-h.pend.ch:
-		case <-time.After(rxLong):
+		case <-time.After(rxLongNow()):
 		}
 	}
 	tl := make([]string, 0, len(tags))
